@@ -1,0 +1,13 @@
+//go:build verif
+
+package protocol
+
+import "github.com/cloudwego/hertz/internal/bytesconv"
+
+// verifArgRoundTrip composes the query-argument encoder and decoder. It exists only under the verif tag, so
+// that the round-trip statement of the percent codec is a postcondition of real code: both calls are checked
+// against the contracts of bytesconv.AppendQuotedArg and decodeArgAppend, not against their bodies.
+func verifArgRoundTrip(x []byte) []byte {
+	e := bytesconv.AppendQuotedArg(nil, x)
+	return decodeArgAppend(nil, e)
+}
